@@ -188,16 +188,26 @@ def to_mono(sf):
     import sympy as sp
     sf = sp.sympify(sf)
     coeff, rest = sf.as_independent(sp.pi, as_Add=False)
-    if not (coeff.is_Rational or coeff.is_Float) or not coeff.is_finite:
-        raise ValueError(f"scale factor {sf!r}: coefficient {coeff!r} is not a finite rational/binary64 number")
-    if rest == 1:
-        k = 0
-    elif rest == sp.pi:
-        k = 1
-    elif rest.is_Pow and rest.base == sp.pi and rest.exp.is_Integer:
-        k = int(rest.exp)
-    else:
-        raise ValueError(f"scale factor {sf!r} is not of the form a*pi**k")
+    k = None
+    if (coeff.is_Rational or coeff.is_Float) and coeff.is_finite:
+        if rest == 1:
+            k = 0
+        elif rest == sp.pi:
+            k = 1
+        elif rest.is_Pow and rest.base == sp.pi and rest.exp.is_Integer:
+            k = int(rest.exp)
+    if k is None:
+        # a closed numeric expression that is not a*pi**k (a special function, a root, a sum with pi): its value is read
+        # with SymPy's arbitrary-precision evaluation to 60 digits (trusted; 1e-59 relative is far below every tolerance)
+        if sf.free_symbols or not sf.is_number:
+            raise ValueError(f"scale factor {sf!r} is not a number")
+        val = sf.evalf(60)
+        if not (val.is_Float and val.is_finite):
+            raise ValueError(f"scale factor {sf!r} does not evaluate to a finite real number ({val!r})")
+        r = sp.Rational(val)
+        m = Mono(Fr(int(r.p), int(r.q)), 0)
+        m.numeric = True
+        return m
     r = sp.Rational(coeff)
     return Mono(Fr(int(r.p), int(r.q)), k)
 
@@ -251,8 +261,9 @@ def dimvec(q):
 def si(q, pi):
     """exact SI value of the constant with pi replaced by the rational `pi` (mass is gram-referenced in SymPy)"""
     coeff, rest = sp.sympify(q.scale_factor).as_independent(sp.pi, as_Add=False)
-    k = 0 if rest == 1 else 1 if rest == sp.pi else int(rest.exp)
-    assert rest == sp.pi**k and coeff.is_Number, "scale factor is not a*pi**k"
+    k = 0 if rest == 1 else 1 if rest == sp.pi else int(rest.exp) if rest.is_Pow and rest.base == sp.pi and rest.exp.is_Integer else None
+    if k is None or not coeff.is_Number:  # not a*pi**k: a closed numeric expression, evaluated to 60 digits
+        coeff, k = sp.sympify(q.scale_factor).evalf(60), 0
     r = sp.Rational(coeff)  # a Float is taken as the exact binary rational it stores
     return Fr(int(r.p), int(r.q)) * pi**k / Fr(1000) ** dimvec(q)["mass"]
 PIS = [Fr(%r), Fr(%r)]
@@ -357,6 +368,8 @@ def run(report):
             continue
         v = raw * Mono(Fr(1, 1000) ** dv["mass"])
         SI[name] = v
+        if getattr(raw, "numeric", False):
+            report.extra.setdefault("numerically_read_scale_factors", []).append(name)
         f = facts.get(name)
         if f is None:
             report.add(Ob(f"{oname}/value", FAULT, "gen", 0, "no `name = Quantity(...)` statement found in the source AST"))
@@ -464,6 +477,7 @@ def run(report):
                     f"assert worst <= tol, 'C20 identity {label}: relative residual ' + repr(float(worst)) + ' > ' + repr(float(tol))\n")}
             report.add(ob)
 
+    _history_stage(report, names)
     report.extra["exhaustive"] = True
     report.extra["pi_interval"] = [str(PI_LO), str(PI_HI)]
     report.extra["tolerance_rule"] = ("max(10 x CODATA standard uncertainty, |ref| x half-unit-in-last-digit of the source "
@@ -477,6 +491,8 @@ def run(report):
                  "embedded reference table (CODATA 2018 and 2022 recommended values, IAU 2015 B2/B3 nominal values, "
                  "CGPM standard gravity; typed from memory, cross-checked at run time against scipy.constants at 1e-6)",
                  "sympy.Rational(Float) returns the exact binary value of the Float",
+                 "sympy evalf(60) for a scale factor that is a closed numeric expression other than a*pi**k (none on the "
+                 "unchanged tree; listed under numerically_read_scale_factors when used)",
                  "ast.get_source_segment returns the literal as written")
     report.assume("IEEE binary64 scale factors are treated as the exact rationals they store",
                   "pi is any real in (3.14159265358979, 3.14159265358980)",
@@ -486,6 +502,63 @@ def run(report):
                   "solar_mass/earth_mass references are IAU 2015 nominal GM divided by CODATA G; their tolerance is the "
                   "relative uncertainty stated in the docstring",
                   "references containing pi (hbar, sigma, Richardson) carry pi symbolically (hbar, sigma) or to 35 digits")
+
+
+HISTORY_SCRIPT = '''import os, sys, threading
+sys.path.insert(0, os.environ.get("VERIF_REPO", "/repo"))
+from concurrent.futures import ThreadPoolExecutor
+from sympy.physics import units
+from symplyphysics import Quantity, quantities as Q
+def snapshot():
+    return {n: (str(getattr(Q, n).name), str(getattr(Q, n).scale_factor), str(getattr(Q, n).dimension)) for n in Q.__all__}
+def make(k, out):
+    out.extend(str(Quantity((i + 2) * units.meter).name) for i in range(k))
+before = snapshot()
+made = {"main thread": [], "worker thread": [], "thread pool": []}
+make(%(k)d, made["main thread"])
+t = threading.Thread(target=make, args=(%(k)d, made["worker thread"])); t.start(); t.join()
+with ThreadPoolExecutor(1) as pool:  # one pool thread: the callers never overlap (a race between callers is out of reach)
+    list(pool.map(lambda _: make(%(k)d // 4, made["thread pool"]), range(4)))
+after = snapshot()
+bad = [f"{n}: (name, scale factor, dimension) {before[n]} -> {after[n]}" for n in before if before[n] != after[n]]
+taken = {v[0] for v in before.values()}
+allnames = [x for v in made.values() for x in v]
+clash = sorted({x for x in allnames if x in taken})
+dup = sorted({x for x in allnames if allnames.count(x) > 1})
+'''
+
+
+def _history_stage(report, names):
+    """Bounded history clause: the table read above is a property of the process state, and every Quantity registers its scale
+    factor and dimension in SymPy's SI tables under its generated name, so a later quantity that reuses the name of a
+    constant silently replaces that constant's value.  Contract of the name source (id_generator.next_id through
+    symbols.next_name): every generated name is fresh for the whole process, whichever thread asks."""
+    K = 40
+    script = HISTORY_SCRIPT % {"k": K}
+    env: dict = {}
+    try:
+        exec(compile(script, "<C20 history stage>", "exec"), env)  # pylint: disable=exec-used
+    except Exception as ex:  # noqa: BLE001
+        report.fault(f"C20 history stage could not run: {type(ex).__name__}: {ex}")
+        return
+    fails = []
+    if env["bad"] or env["clash"] or env["dup"]:
+        detail = (f"after {K} quantities created in the main thread, {K} in a worker thread and {K} in a thread pool: "
+                  f"{len(env['bad'])} exported constant(s) changed ({'; '.join(env['bad'][:3])}); generated names equal to a "
+                  f"constant's name: {env['clash'][:5]}; names generated twice: {env['dup'][:5]}")
+        fails.append({"name": "C20/history/fresh-names", "signature": "history", "detail": detail,
+                      "replay": {"reproduced": True, "script": script + (
+                          "print(len(bad), 'constants changed;', 'clashing names', clash[:5], 'duplicated names', dup[:5])\n"
+                          "assert not bad and not clash and not dup, 'C20 history: ' + '; '.join(bad[:3]) + ' clash=' + "
+                          "repr(clash[:5]) + ' dup=' + repr(dup[:5])\n")}})
+    report.add_bounded(
+        "history clause: every exported constant keeps its name, scale factor and dimension, and no generated quantity name is "
+        "issued twice or equals a constant's name, after further quantities are created in the main thread, a worker thread and "
+        "a pool thread, one caller at a time (the SI tables are keyed by the generated name; overlapping callers are a "
+        "concurrency question outside this family's reach)",
+        f"{K} quantities per stage, 3 stages, one process", len(names), not fails, fails)
+    report.function("symplyphysics.core.symbols.id_generator.next_id", PKG / "core" / "symbols" / "id_generator.py",
+                    "bounded history clause only")
 
 
 def _fmt(d):
